@@ -13,17 +13,27 @@
 
 namespace {
 
-// generated hash: few distinct start groups and tags, so collisions are the norm
+// generated hash: the per-case mode decides how keys spread over groups and 7-bit tags.
+//   0: few start groups at the front of the table, few tags (collisions, full groups)
+//   1: start buckets spread over the whole table (any slot can be the first occupied one)
+//   2: start buckets only in the upper half of a 32/64-bucket table, few tags
+//   3: libstdc++-like identity hash
+int g_hash_mode = 0;
 struct WeakHash {
-  size_t operator()(uint64_t k) const noexcept {
-    uint64_t group = (k * 7) & 3;        // 4 start groups
-    uint64_t tag = (k >> 2) & 3;         // 4 distinct 7-bit tags
-    return (size_t)((group << 7) | tag | ((k & 0x10) ? 0x100000 : 0));
+  static size_t mix(uint64_t k) {
+    switch (g_hash_mode) {
+      default:
+      case 0: return (size_t)((((k * 7) & 3) << 7) | ((k >> 2) & 3) | ((k & 0x10) ? 0x100000 : 0));
+      case 1: return (size_t)(((k * 0x9E3779B97F4A7C15ull) >> 40) << 3 | (k & 7));
+      case 2: return (size_t)(((16 + (k * 5) % 16) << 7) | ((k >> 4) & 3));
+      case 3: return (size_t)k * 128 + (size_t)(k % 5);
+    }
   }
+  size_t operator()(uint64_t k) const noexcept { return mix(k); }
   size_t operator()(const std::string& s) const noexcept {
     uint64_t h = 0;
     for (unsigned char c : s) h = h * 3 + c;
-    return (size_t)(((h & 3) << 7) | ((h >> 2) & 7));
+    return mix(h);
   }
 };
 
@@ -398,7 +408,12 @@ extern "C" int LLVMFuzzerTestOneInput(const uint8_t* data, size_t size) {
   vfz::Dec d(data, size);
   std::string desc;
   bool nontrivial = false;
-  switch (d.u8() % 6) {
+  uint8_t head = d.u8();
+  g_hash_mode = (head >> 4) & 3;
+  static const char* hm[] = {"hash=clustered ", "hash=spread ", "hash=upper-half ", "hash=identity "};
+  desc += hm[g_hash_mode];
+  vfz::label(hm[g_hash_mode]);
+  switch ((head & 15) % 6) {
     case 0: case 1: vfz::label("kind_set"); run_sets(d, desc, nontrivial); break;
     case 2: vfz::label("kind_map"); run_map(d, desc, nontrivial); break;
     case 3:
